@@ -10,14 +10,20 @@ if not hasattr(os, "register_at_fork"):
     def create_handler_lock():
         return threading.Lock()
 
+    def create_queue_lock():
+        return threading.Lock()
+
 else:
     # While forking, we need to sanitize all locks to make sure the child process doesn't run into
     # a deadlock (if a lock already acquired is inherited) and to protect sink from corrupted state.
     # It's very important to acquire logger locks before handlers one to prevent possible deadlock
-    # while 'remove()' is called for example.
+    # while 'remove()' is called for example. Likewise, the locks protecting the sinks of enqueued
+    # handlers must come last: a thread blocked on a full queue holds its handler lock until the
+    # writer thread, which needs the queue lock, has made room.
 
     logger_locks = weakref.WeakSet()
     handler_locks = weakref.WeakSet()
+    queue_locks = weakref.WeakSet()
 
     def acquire_locks():
         for lock in logger_locks:
@@ -26,11 +32,17 @@ else:
         for lock in handler_locks:
             lock.acquire()
 
+        for lock in queue_locks:
+            lock.acquire()
+
     def release_locks():
         for lock in logger_locks:
             lock.release()
 
         for lock in handler_locks:
+            lock.release()
+
+        for lock in queue_locks:
             lock.release()
 
     os.register_at_fork(
@@ -47,4 +59,9 @@ else:
     def create_handler_lock():
         lock = threading.Lock()
         handler_locks.add(lock)
+        return lock
+
+    def create_queue_lock():
+        lock = threading.Lock()
+        queue_locks.add(lock)
         return lock
